@@ -14,6 +14,8 @@ spec/AsNumTrace.tla:
   further kinds: "fileip" (as_numbers + anon_ip=True), "fileundo" (as_numbers + undo_ip_anon=True),
   "iponly" (anon_ip=True, no AS numbers); their lines reach TLC with address tokens projected to a
   placeholder (see codes_projected).
+  "cli" / "clicfg": the command-line entry point main() with -n LIST / a config file as-numbers=LIST;
+  each line operation is one run of main() on a file holding `text` (see run_cli).
 
 Nothing here decides anything: text becomes character codes, numbers become
 digit lists, exceptions become outcomes; TLC judges.
@@ -22,8 +24,11 @@ import io
 import ipaddress
 import json
 import logging
+import os
 import re
+import shutil
 import sys
+import tempfile
 import unicodedata
 
 import common  # noqa: F401  (puts the tree under test first on sys.path)
@@ -61,6 +66,8 @@ def _outcome(e):
 
 
 def construct(kind, lst, salt):
+    if kind in CLI_KINDS:       # nothing is built yet: every line operation is one run of main()
+        return {"salt": salt, "list": list(lst)}
     if kind == "class":
         from netconan.sensitive_item_removal import AsNumberAnonymizer
         return AsNumberAnonymizer(list(lst), salt)
@@ -142,7 +149,47 @@ def construct_without_salt(lst):
     return obj, salt
 
 
+class NoOutput(Exception):
+    """the command line returned normally but wrote no output file"""
+
+
+CLI_KINDS = ("cli", "clicfg")
+
+
+def run_cli(kind, obj, text):
+    """One run of the command-line entry point netconan.netconan.main on a one-file input:
+    kind "cli":    main(["-i", in, "-o", out, "-s", salt, "-n", "n1,n2,..."])
+    kind "clicfg": the same with the list in a configuration file (`as-numbers=n1,n2,...`, option -c).
+    Scratch files live under $ASN_SCRATCH (the check's per-run scratch directory) and are removed."""
+    from netconan.netconan import main
+    d = tempfile.mkdtemp(prefix="asncli_", dir=os.environ.get("ASN_SCRATCH") or None)
+    try:
+        inp, outp = os.path.join(d, "in.cfg"), os.path.join(d, "out.cfg")
+        with open(inp, "w", encoding="utf-8", newline="") as fh:
+            fh.write(text)
+        argv = ["-i", inp, "-o", outp, "-s", obj["salt"]]
+        if kind == "cli":
+            argv += ["-n", ",".join(obj["list"])]
+        else:
+            cfg = os.path.join(d, "netconan.conf")
+            with open(cfg, "w", encoding="utf-8") as fh:
+                fh.write("as-numbers=%s\n" % ",".join(obj["list"]))
+            argv += ["-c", cfg]
+        try:
+            main(argv)
+        except SystemExit as e:
+            raise RuntimeError("SystemExit(%r)" % (e.code,))
+        if not os.path.isfile(outp):
+            raise NoOutput("main(%s) wrote no output file" % (argv[4:],))
+        with open(outp, "r", encoding="utf-8", newline="") as fh:
+            return fh.read()
+    finally:
+        shutil.rmtree(d, ignore_errors=True)
+
+
 def run_line(kind, obj, text):
+    if kind in CLI_KINDS:
+        return run_cli(kind, obj, text)
     if kind == "class":
         from netconan.sensitive_item_removal import anonymize_as_numbers
         return anonymize_as_numbers(obj, text)
@@ -163,7 +210,7 @@ def execute(ops, insts=None):
             # reported by instance j); optional 6th element: the api level whose salt name space the
             # instance joins (default: its own kind)
             _, i, kind, salt, lst = op[:5]
-            ns = op[5] if len(op) > 5 else kind
+            ns = op[5] if len(op) > 5 else ("file" if kind in CLI_KINDS else kind)   # -s S is FileAnonymizer's salt
             salts = insts.setdefault("salts", {})
             obj, outcome, used = None, "ok", salt
             try:
